@@ -1,6 +1,15 @@
 """C01 -- ECDSA verification and signing are exact."""
 import random
 LEVEL = "model_checking"
+REG = dict(category="model_checking",
+    text="Ecdsa.tla is an executable TLA+ definition of ECDSA verify / RFC 6979 sign / recover on real 256-bit values. TLC (a) enumerates the order-7/13/199 "
+    "test groups completely (every key, message residue, nonce, (r,s) pair incl. overflow encodings) checking completeness/soundness invariants on the spec and "
+    "replaying every record into the small-group build of the real code, (b) generates boundary records in the real group (s = (n-1)/2, (n+1)/2, r+n<p family, "
+    "messages >= n, invalid keys, failing nonce callbacks, all recovery ids) replayed on the real API, (c) validates traces recorded from the implementation.",
+    note="Trusted: TLC, BigInteger/MessageDigest overrides (cross-checked against the TLA+ definitions), the harness interpreter. Real-group inputs are a structured "
+    "finite pool plus seeded random values, not all 2^256 values; exhaustive only in the small groups (which use scalar_low_impl.h).",
+    technique="TLA+ spec executed by TLC; spec-generated records replayed into the C API; implementation traces validated by TLC; exhaustive small-group comparison",
+    design_ref="DESIGN.md §4 C01")
 MODULE = "C01_Ecdsa.tla"
 TRACE = (MODULE, "C01_trace.cfg")
 N = 0xFFFFFFFFFFFFFFFFFFFFFFFFFFFFFFFEBAAEDCE6AF48A03BBFD25E8CD0364141
